@@ -17,7 +17,7 @@ class Abort(BaseException):
 class Stats:
     def __init__(self):
         self.queries = 0; self.q_lin = 0; self.q_nl = 0; self.solver_s = 0.0
-        self.unknown = 0; self.paths = 0; self.aborted = 0
+        self.unknown = 0; self.paths = 0; self.aborted = 0; self.q_stageA = 0
     def add(self, o):
         for k in self.__dict__:
             setattr(self, k, getattr(self, k) + getattr(o, k))
@@ -45,6 +45,7 @@ class Ctx:
         self.approx = False     # an `unknown` was treated as feasible on this path
         self.inputs = {}        # name -> z3 const (declared symbolic inputs)
         self.opaque = {}
+        self.opaque_args = {}   # opaque var name -> (fn, argument SV)
         self.notes = []
         self.model = None
         self.concrete = None    # dict name->float in concrete replay mode
@@ -70,6 +71,22 @@ class Ctx:
         tmo = timeout_ms or self.timeout_ms
         r = z3.unknown
         self.model = None
+        if not noslice and not want_model and extra:
+            # stage A (sound for unsat: fewer constraints): only the *linear* path constraints, re-sliced
+            lin = [c_ for c_ in cons if is_linear(c_)]
+            if len(lin) < len(cons):
+                lin = slice_constraints(lin, extra + list(focus or []))
+                st.q_stageA += 1
+                r0 = z3.unknown
+                if self.linearize:
+                    try: r0 = check_linearized(lin + extra, min(tmo, 3000))
+                    except z3.Z3Exception: r0 = z3.unknown
+                if r0 != z3.unsat:
+                    s0 = z3.Solver(); s0.set('timeout', min(tmo, 3000)); s0.add(*(lin + extra))
+                    r0 = s0.check()
+                if r0 == z3.unsat:
+                    st.solver_s += time.time() - t
+                    return z3.unsat
         if self.linearize and not want_model:
             st.q_lin += 1
             try:
@@ -201,6 +218,29 @@ def free_vars(t):
     return out
 
 
+_lin_cache = {}
+def is_linear(t):
+    k = t.get_id()
+    hit = _lin_cache.get(k)
+    if hit is not None and hit[0].eq(t): return hit[1]
+    ok = True; seen = set(); stack = [t]
+    while stack and ok:
+        e = stack.pop()
+        i = e.get_id()
+        if i in seen: continue
+        seen.add(i)
+        if z3.is_app(e):
+            kind = e.decl().kind(); ch = e.children()
+            if kind == z3.Z3_OP_MUL:
+                if sum(1 for c in ch if not (z3.is_rational_value(c) or z3.is_int_value(c))) > 1: ok = False
+            elif kind in (z3.Z3_OP_DIV, z3.Z3_OP_IDIV, z3.Z3_OP_MOD, z3.Z3_OP_POWER):
+                if not (z3.is_rational_value(ch[1]) or z3.is_int_value(ch[1])) or kind == z3.Z3_OP_POWER: ok = False
+            stack.extend(ch)
+    if len(_lin_cache) > 200000: _lin_cache.clear()
+    _lin_cache[k] = (t, ok)
+    return ok
+
+
 def slice_constraints(cons, query):
     """keep only constraints transitively sharing variables with the query"""
     need = set()
@@ -216,6 +256,129 @@ def slice_constraints(cons, query):
                 if not fv <= need:
                     need |= fv; changed = True
     return [c for c, k in zip(cons, keep) if k]
+
+
+# ---------------------------------------------------------------- division elimination
+class DivElim:
+    """rewrite a formula so that no division by a non-constant remains: every arithmetic term
+    becomes a pair (N, D); atoms are cross-multiplied (by D^2 products for inequalities).  Valid
+    where all denominators are non-zero, which the engine guarantees on every path (each
+    division site first decides `denominator == 0`; that side raises ZeroDivisionError)."""
+    def __init__(self):
+        self.cache = {}
+        self.dens = {}
+    def frac(self, e):
+        k = e.get_id()
+        hit = self.cache.get(k)
+        if hit is not None: return hit[1]
+        r = self._frac(e)
+        self.cache[k] = (e, r)
+        return r
+    def _frac(self, e):
+        one = None
+        if not z3.is_app(e): return (e, one)
+        kind = e.decl().kind(); ch = e.children()
+        if kind == z3.Z3_OP_DIV:
+            (n1, d1), (n2, d2) = self.frac(ch[0]), self.frac(ch[1])
+            if z3.is_rational_value(ch[1]) or z3.is_int_value(ch[1]):
+                return (n1 / ch[1], d1)
+            # (n1/d1)/(n2/d2) = n1 d2 / (d1 n2)
+            num = n1 if d2 is None else n1 * d2
+            den = n2 if d1 is None else d1 * n2
+            self.dens[n2.get_id()] = n2
+            return (num, den)
+        if kind == z3.Z3_OP_ADD or kind == z3.Z3_OP_SUB:
+            fr = [self.frac(c) for c in ch]
+            if all(d is None for _, d in fr):
+                return (e, None) if all(n.eq(c) for (n, _), c in zip(fr, ch)) else (e.decl()(*[n for n, _ in fr]), None)
+            # common denominator: group structurally equal denominators
+            dens = []
+            for _, d in fr:
+                if d is not None and not any(d.eq(x) for x in dens): dens.append(d)
+            if len(dens) == 1:
+                D = dens[0]
+                nums = [n if d is not None else n * D for n, d in fr]
+                return (e.decl()(*nums), D)
+            D = dens[0]
+            for x in dens[1:]: D = D * x
+            nums = []
+            for n, d in fr:
+                m = n
+                for x in dens:
+                    if d is None or not d.eq(x): m = m * x
+                nums.append(m)
+            return (e.decl()(*nums), D)
+        if kind == z3.Z3_OP_UMINUS:
+            n, d = self.frac(ch[0]); return (-n, d)
+        if kind == z3.Z3_OP_MUL:
+            fr = [self.frac(c) for c in ch]
+            N = fr[0][0]; D = fr[0][1]
+            for n, d in fr[1:]:
+                N = N * n
+                if d is not None: D = d if D is None else D * d
+            return (N, D)
+        if kind == z3.Z3_OP_POWER and z3.is_int_value(ch[1]) and ch[1].as_long() >= 0:
+            n, d = self.frac(ch[0]); p = ch[1].as_long()
+            if d is None: return (e, None)
+            return (z3.Product(*[n] * p) if p else z3.RealVal(1), z3.Product(*[d] * p) if p else None)
+        if kind == z3.Z3_OP_ITE:
+            c = self.form(ch[0]); (n1, d1), (n2, d2) = self.frac(ch[1]), self.frac(ch[2])
+            if d1 is None and d2 is None: return (z3.If(c, n1, n2), None)
+            if d1 is not None and d2 is not None and d1.eq(d2): return (z3.If(c, n1, n2), d1)
+            a = n1 if d2 is None else n1 * d2
+            b = n2 if d1 is None else n2 * d1
+            D = d1 if d2 is None else (d2 if d1 is None else d1 * d2)
+            return (z3.If(c, a, b), D)
+        if kind == z3.Z3_OP_TO_REAL:
+            return (e, None)
+        if not ch: return (e, None)
+        return (e, None)     # other operators (to_int, uninterpreted): left as they are
+    def form(self, e):
+        k = ('f', e.get_id())
+        hit = self.cache.get(k)
+        if hit is not None: return hit[1]
+        r = self._form(e)
+        self.cache[k] = (e, r)
+        return r
+    def _form(self, e):
+        if not z3.is_app(e): return e
+        kind = e.decl().kind(); ch = e.children()
+        if kind in (z3.Z3_OP_AND, z3.Z3_OP_OR, z3.Z3_OP_NOT, z3.Z3_OP_IMPLIES, z3.Z3_OP_XOR) or \
+           (kind in (z3.Z3_OP_EQ, z3.Z3_OP_ITE, z3.Z3_OP_DISTINCT) and ch and z3.is_bool(ch[0]) and all(z3.is_bool(c) for c in ch[-2:])):
+            return e.decl()(*[self.form(c) for c in ch])
+        if kind in (z3.Z3_OP_EQ, z3.Z3_OP_DISTINCT, z3.Z3_OP_LE, z3.Z3_OP_LT, z3.Z3_OP_GE, z3.Z3_OP_GT) and len(ch) == 2 and z3.is_arith(ch[0]):
+            (n1, d1), (n2, d2) = self.frac(ch[0]), self.frac(ch[1])
+            if d1 is None and d2 is None:
+                return e if (n1.eq(ch[0]) and n2.eq(ch[1])) else e.decl()(n1, n2)
+            if kind in (z3.Z3_OP_EQ, z3.Z3_OP_DISTINCT):
+                if d1 is not None and d2 is not None and d1.eq(d2): return e.decl()(n1, n2)
+                a = n1 if d2 is None else n1 * d2
+                b = n2 if d1 is None else n2 * d1
+                return e.decl()(a, b)
+            # inequality: multiply both sides by d1^2 d2^2 > 0
+            a = n1; b = n2
+            if d1 is not None: a = a * d1; b = b * d1 * d1
+            if d2 is not None: a = a * d2 * d2; b = b * d2
+            return e.decl()(a, b)
+        return e
+
+
+def elim_div(cons):
+    de = DivElim()
+    out = [de.form(c) for c in cons]
+    return out + [d != 0 for d in de.dens.values()]
+
+
+def has_div(t):
+    seen = set(); stack = [t]
+    while stack:
+        e = stack.pop(); i = e.get_id()
+        if i in seen: continue
+        seen.add(i)
+        if z3.is_app(e):
+            if e.decl().kind() == z3.Z3_OP_DIV and not (z3.is_rational_value(e.arg(1)) or z3.is_int_value(e.arg(1))): return True
+            stack.extend(e.children())
+    return False
 
 
 # ---------------------------------------------------------------- monomial abstraction
@@ -267,6 +430,8 @@ class Linearizer:
 
 
 def check_linearized(cons, timeout_ms=60000):
+    if any(has_div(c) for c in cons):
+        cons = elim_div(cons)
     L = Linearizer()
     s = z3.Solver()
     s.set('timeout', timeout_ms)
@@ -651,6 +816,13 @@ def opaque(fn, s):
     c = ctx()
     st = z3.simplify(s.t, som=True)
     key = (fn, st.sexpr())
+    # trusted lemma L1: cos(arccos x) = x (and sin(arcsin x) = x, tan(arctan x) = x, exp(log x) = x)
+    inv_of = {'cos': 'acos', 'sin': 'asin', 'tan': 'atan', 'exp': 'log'}.get(fn)
+    if inv_of and z3.is_const(st) and st.decl().kind() == z3.Z3_OP_UNINTERPRETED:
+        hit = c.opaque_args.get(st.decl().name())
+        if hit is not None and hit[0] == inv_of:
+            c.notes.append(f'lemma {fn}({inv_of} x) = x used')
+            return hit[1]
     if key not in c.opaque:
         v = z3.Real(f'{fn}!{len(c.opaque)}')
         c.opaque[key] = v
@@ -658,8 +830,10 @@ def opaque(fn, s):
             c.axioms.append(z3.And(v >= _RANGE[fn][0], v <= _RANGE[fn][1]))
         if fn == 'acos':
             c.axioms.append(z3.And(v >= 0, v <= _const(math.pi)))
+            c.axioms.append(z3.Implies(st < 1, v > 0)); c.axioms.append(z3.Implies(st > -1, v < _const(math.pi)))
         if fn == 'exp':
             c.axioms.append(v > 0)
+        c.opaque_args[v.decl().name()] = (fn, s)
     return SV(c.opaque[key])
 
 
@@ -716,6 +890,14 @@ def lt(a, b, scale=None):
         return a < b
     s = scale if scale is not None else max(1.0, abs(a), abs(b))
     return float(a) < float(b) + TOL * s
+def close(a, b, tol=1e-9, scale=1.0):
+    """|a-b| <= tol*scale in symbolic mode (for obligations that pass through a numeric threshold
+    or a float constant such as cos(90 deg) = 6e-17); tolerant float comparison in replay"""
+    if is_sym(a) or is_sym(b):
+        return band(a - b <= tol * scale, b - a <= tol * scale)
+    return abs(float(a) - float(b)) <= max(TOL, tol) * max(scale, abs(float(a)), abs(float(b)), 1.0)
+
+
 def alleq(A, B, scale=None):
     A = _np.asarray(A, dtype=object); B = _np.asarray(B, dtype=object)
     if A.shape != B.shape:
@@ -946,7 +1128,7 @@ def amax(a, axis=None, **k):
         if not any(is_sym(v) for v in vals): return max(vals)
         if len(vals) == 1: return vals[0]
         c = ctx(); m = c.fresh('max', 'I' if all(_isint(v) for v in vals) else 'R')
-        c.axioms.append(z3.And(*[m >= term(v) for v in vals]))
+        for v in vals: c.axioms.append(m >= term(v))
         c.axioms.append(z3.Or(*[m == term(v) for v in vals]))
         return SV(m)
     return _wrap(_np.apply_along_axis(lambda v: amax(v), axis, a))
@@ -959,7 +1141,7 @@ def amin(a, axis=None, **k):
         if not any(is_sym(v) for v in vals): return min(vals)
         if len(vals) == 1: return vals[0]
         c = ctx(); m = c.fresh('min', 'I' if all(_isint(v) for v in vals) else 'R')
-        c.axioms.append(z3.And(*[m <= term(v) for v in vals]))
+        for v in vals: c.axioms.append(m <= term(v))
         c.axioms.append(z3.Or(*[m == term(v) for v in vals]))
         return SV(m)
     return _wrap(_np.apply_along_axis(lambda v: amin(v), axis, a))
